@@ -345,10 +345,65 @@ def run(ctx):
     ctx.exhaustive = True
     from . import c06_combine
     c06_combine.run(ctx)
+    # very long histories by doubling (counts far beyond 2^31)
+    jobs = [(typ, acc, 45) for typ in ("SUM", "RATIO", "CHOICE") for acc in (False,)]
+    for job, d in zip(jobs, pool_map(doubling_case, jobs)):
+        ctx.ok(("doubling",) + job)
+        if d:
+            ctx.violation(d, {"kind": "doubling", "job": list(job)})
+
+
+def doubling_case(job):
+    """PartitionLaw for very long histories: a result merged k times with a copy of itself is the fold of 2^k copies of its
+    observations - counts beyond 2^31 / 2^53 must still be exact (Python integers in the expectation)"""
+    import copy
+    typ, acc, steps = job
+    from pyphysim.simulations.results import Result
+    tc = type_code(typ)
+    if typ == "CHOICE":
+        r = Result.create(NAME, tc, 0, NCHOICE, accumulate_values=acc)
+        r.update(2)
+        r.update(2)
+        base = {"n": 3, "counts": [1, 0, 2], "total": 3}
+    elif typ == "RATIO":
+        r = Result.create(NAME, tc, 1, 4, accumulate_values=acc)
+        r.update(3, 4)
+        base = {"n": 2, "value": 4, "total": 8}
+    else:
+        r = Result.create(NAME, tc, 3, accumulate_values=acc)
+        r.update(5)
+        base = {"n": 2, "value": 8, "total": 0}
+    for k in range(1, steps + 1):
+        try:
+            other = copy.deepcopy(r)
+            r.merge(other)
+            f = 2 ** k
+            d = r.to_dict() if hasattr(r, "to_dict") else r._to_dict()
+            if r.num_updates != base["n"] * f:
+                return f"{typ}: after {k} doublings num_updates is {r.num_updates}, expected {base['n'] * f}"
+            if typ == "CHOICE":
+                got = [int(x) for x in d["value"]]
+                if got != [c * f for c in base["counts"]] or int(d["total"]) != base["total"] * f:
+                    return f"{typ}: after {k} doublings the counts are {got} / total {d['total']}, expected {[c * f for c in base['counts']]} / {base['total'] * f}"
+                shares = [float(x) for x in r.get_result()]
+                if shares != [c / base["total"] for c in base["counts"]]:
+                    return f"{typ}: after {k} doublings get_result() is {shares}"
+            else:
+                if float(d["value"]) != float(base["value"] * f) or float(d["total"]) != float(base["total"] * f):
+                    return f"{typ}: after {k} doublings value / total are {d['value']} / {d['total']}, expected {base['value'] * f} / {base['total'] * f}"
+        except Exception as ex:        # noqa
+            return f"{typ}: doubling {k} raised {type(ex).__name__}: {ex}"
+    return None
 
 
 def replay(ctx, data):
     c = data["case"]
+    if c.get("kind") == "doubling":
+        d = doubling_case(tuple(c["job"]))
+        ctx.ok()
+        if d:
+            ctx.violation(d, c)
+        return
     if c.get("kind") == "combine":
         from . import c06_combine
         return c06_combine.replay(ctx, c)
